@@ -378,6 +378,32 @@ def _close(a, b, scale):
     return abs(float(a) - float(b)) <= 8 * math.ulp(max(abs(float(scale)), 1.0))
 
 
+def _selection_is_a_cadence(w, cad, r, want, L, V, gsite, desc, extra=None):
+    """A selection result is itself a cadence (a list of the selected frames): deleting its first / popping its last
+    member behaves as on the plain list `want`, and the cadence it was selected from still holds L."""
+    if not want or not hasattr(r, 'frames'):
+        return 0
+    try:
+        del r[0]
+        got = w.names(list(r.frames))
+        exp = list(want[1:])
+        if exp:
+            r.pop()
+            got = w.names(list(r.frames))
+            exp = exp[:-1]
+    except Exception as e:
+        V(gsite, 'selection_not_a_list', '%s on list %s: deleting from / popping the selected cadence raised %s: %s'
+          % (desc, L, type(e).__name__, e), params_extra=extra)
+        return 1
+    if got != exp:
+        V(gsite, 'selection_not_a_list', '%s on list %s: after del [0] and pop() the selected cadence holds %s, a list gives %s'
+          % (desc, L, got, exp), params_extra=extra)
+    if w.names(list(cad.frames)) != L:
+        V(gsite, 'selection_shares_list', '%s on list %s: deleting from the selected cadence changed the cadence it was taken from to %s'
+          % (desc, L, w.names(list(cad.frames))), params_extra=extra)
+    return 1
+
+
 def observe_all(w, st, V, out):
     """Every observer in the current state.  Returns the number of oracle comparisons."""
     import setigen as stg
@@ -430,6 +456,8 @@ def observe_all(w, st, V, out):
                 got = w.names(list(r.frames)) if hasattr(r, 'frames') else None
                 if got != want:
                     V(gsite, 'selection_mismatch', 'c[%r] on list %s holds %s, list gives %s' % (sl, L, got, want))
+                elif s_ in (None, -1):
+                    ne += _selection_is_a_cadence(w, cad, r, want, L, V, gsite, 'c[%r]' % (sl,))
                 out.add('slice:%d' % min(len(want), 3))
     # index collections: list / ndarray / tuple
     rng = list(range(-n - 1, n + 1))
@@ -465,6 +493,8 @@ def observe_all(w, st, V, out):
             if got != want:
                 V(gsite, 'selection_mismatch', 'c[%s %s] on list %s holds %s, expected %s' % (form, idxs, L, got, want),
                   params_extra={'form': form})
+            else:
+                ne += _selection_is_a_cadence(w, cad, r, want, L, V, gsite, 'c[%s %s]' % (form, idxs), {'form': form})
             out.add('sel:%s:%d' % (form, len(want)))
     # boolean masks of the cadence's length (numpy index-array semantics: the frames where the mask is set, in order)
     import itertools as _it
@@ -483,6 +513,8 @@ def observe_all(w, st, V, out):
             if type(r) is not type(cad) or got != want:
                 V(gsite, 'selection_mismatch', 'c[%s mask %s] on list %s holds %s, expected %s' % (form, list(mask), L, got, want),
                   params_extra={'form': form})
+            else:
+                ne += _selection_is_a_cadence(w, cad, r, want, L, V, gsite, 'c[%s mask %s]' % (form, list(mask)), {'form': form})
             out.add('sel:mask:%d' % len(want))
     # selection by label
     amb = 0
